@@ -119,6 +119,40 @@ theorem takeWhile_all {α} (p : α → Bool) (l : List α) : ∀ x ∈ l.takeWhi
       · exact ih x hx
     · simp [h] at hx
 
+/-! ### cheap duplicate check -/
+
+theorem memN_of_mem (k : Nat) (l : List Nat) (h : k ∈ l) : memN k l = true := by
+  induction l with
+  | nil => cases h
+  | cons x xs ih =>
+    simp only [memN, Bool.or_eq_true]
+    rcases List.mem_cons.mp h with rfl | hm
+    · left; exact Nat.beq_refl k
+    · right; exact ih hm
+
+theorem nodupN_sound (l : List Nat) (h : nodupN l = true) : l.Nodup := by
+  induction l with
+  | nil => simp
+  | cons k ks ih =>
+    simp only [nodupN, Bool.and_eq_true, Bool.not_eq_true'] at h
+    rw [List.nodup_cons]
+    refine ⟨?_, ih h.2⟩
+    intro hm
+    have := memN_of_mem k ks hm
+    rw [this] at h
+    exact absurd h.1 (by decide)
+
+theorem nodup_of_map {α β} (f : α → β) (l : List α) (h : (l.map f).Nodup) : l.Nodup := by
+  induction l with
+  | nil => simp
+  | cons a l ih =>
+    simp only [List.map_cons, List.nodup_cons] at h ⊢
+    exact ⟨fun hm => h.1 (List.mem_map_of_mem hm), ih h.2⟩
+
+/-- Distinct numbers ⇒ distinct keys (no injectivity of the numbering is needed in this direction). -/
+theorem nodup_of_nodupN_natKey (l : List (List Nat × Bool)) (h : nodupN (l.map natKey) = true) :
+    l.Nodup := nodup_of_map natKey l (nodupN_sound _ h)
+
 /-! ### registry invariants -/
 
 /-- Every record holds at most one function per kind. -/
